@@ -362,7 +362,7 @@ def gen_cases(ctx):
     # 7b. the application replaces the framebuffer (rfbNewFramebuffer) while the client is connected: the client's
     #     function and table must follow the new server format, incl. changes of the trueColour flag only
     for _ in range(16 if quick else 150):
-        kind = rng.choice(["cm8", "cm8", "same", "other", "rand"])
+        kind = rng.choice(["cm8", "cm8", "same", "other", "rand", "samebpp", "samebpp"])
         cf = rand_fmt(rng, rng.choice([8, 16, 32])) if rng.random() < 0.8 else (8, 8, 0, 0, 0, 0, 0, 0, 0, 0)
         cmap = None
         if kind == "cm8":        # colour-mapped 8-bit server with the default layout fields, then true colour
@@ -375,7 +375,12 @@ def gen_cases(ctx):
             bpp0 = rng.choice([1, 2, 4])
             bps0 = {1: 2, 2: 5, 4: rng.choice([8, 10])}[bpp0]
             sf = init_server_format(bps0, bpp0) if kind != "rand" else rand_fmt(rng, 8 * bpp0, be=0)
-            if kind == "same":
+            if kind == "samebpp":     # same pixel size, other bitsPerSample: only maxima and shifts change
+                bpp0 = rng.choice([2, 4])
+                a_, b_ = rng.sample([3, 4, 5] if bpp0 == 2 else [4, 6, 8, 10], 2)
+                sf = init_server_format(a_, bpp0)
+                nb = [(b_, 3, bpp0)] + ([(a_, 3, bpp0)] if rng.random() < 0.5 else [])
+            elif kind == "same":
                 nb = [(bps0, 3, bpp0), (bps0, 3, bpp0)]
             else:
                 bpp1 = rng.choice([1, 2, 3, 4])
@@ -584,6 +589,9 @@ def oracle_case(lines, impl_lines):
         if p[0] == "recmap":
             if not line.startswith("recmap ret=1"):
                 return ("rfbSetClientColourMap: " + line[:40], dict(feat, kind="recmap"), (oi, 0))
+            if not sf[3] and int(p[1]) and " mod=full" not in line:
+                return ("rfbSetClientColourMap rebuilt the table but did not mark the whole screen as modified: " + line[:40],
+                        dict(feat, kind="recmap"), (oi, 0))
             if not sf[3] and int(p[1]):          # colour-map server, client ready: the new map applies from now on
                 cur_cmap = (int(p[2]), int(p[3]), [int(v) for v in p[4:]])
             continue
@@ -631,6 +639,7 @@ def oracle_case(lines, impl_lines):
 
 PAD_INITIALISED = [False]
 SWITCHES = {}
+CRASHES = []
 
 
 def read_switches():
@@ -697,8 +706,28 @@ def run_chunks(exe, cases, nproc, unlimited_stack=False, timeout=3000):
         chunks.append(cur)
 
     def one(ch):
-        script = "\n".join("\n".join(c) for c in ch) + "\n"
-        return vlib.run_driver(exe, script, timeout=timeout, unlimited_stack=unlimited_stack)
+        # a driver that dies (ASan abort, uncaught signal) loses only the case it died in: the rest of the chunk
+        # is re-run, the death is recorded in CRASHES with the sanitizer report
+        rc_all, out_all, err_all = 0, "", ""
+        for _ in range(25):
+            script = "\n".join("\n".join(c) for c in ch) + "\n"
+            rc, out, err = vlib.run_driver(exe, script, timeout=timeout, unlimited_stack=unlimited_stack)
+            out_all += out
+            if rc == 0:
+                break
+            rc_all = rc
+            err_all += err[-3000:]
+            seen = [l for l in out.split("\n") if l.startswith("case ")]
+            k = len(seen) - 1
+            if k < 0 or k >= len(ch) or ch[k][0] != seen[-1]:
+                break
+            CRASHES.append((ch[k], rc, err[-3000:], os.path.basename(exe if isinstance(exe, str) else exe[0])))
+            if not out.endswith("\n"):
+                out_all += "\n"
+            ch = ch[k + 1:]
+            if not ch:
+                break
+        return rc_all, out_all, err_all
     with concurrent.futures.ThreadPoolExecutor(max_workers=nproc) as ex:
         res = list(ex.map(one, chunks))
     rc = max(abs(r[0]) for r in res)
@@ -765,6 +794,7 @@ def build(ctx):
 def check(ctx):
     cexe, mexe, proof_ok = build(ctx)
     cases = gen_cases(ctx)
+    del CRASHES[:]
     nproc = 6 if ctx.quick() else 10
     (rc1, cout, cerr), (rc2, mout, merr) = run_pair(cases, cexe, mexe, nproc)
     cc, mc = vlib.split_cases(cout), vlib.split_cases(mout)
@@ -815,6 +845,16 @@ def check(ctx):
                         "the pixel and pairwise disjoint, stride a multiple of the pixel size"]
 
     reported_keys = set()
+    for (c, rc, err, who) in CRASHES[:3]:
+        if who != os.path.basename(cexe):
+            continue
+        pc = parse_case(c)
+        rep = [l for l in err.split("\n") if "ERROR: AddressSanitizer" in l or "SUMMARY:" in l]
+        ctx.violation("the library crashed the implementation driver (exit %d) while executing this case: %s" %
+                      (rc, (rep[0] if rep else err.strip().split("\n")[-1] if err.strip() else "no report")[:200]),
+                      {"kind": "crash", "sbpp": (pc["sf"] or (0,))[0], "cbpp": (pc["cf"] or (0,))[0]},
+                      "script:\n" + "\n".join(c) + "\n\nstderr of the implementation driver:\n" + err)
+        reported_keys.add(("crash",))
     for idx, (msg, feat, (oi, pi)) in oracle_fail:
         key = (feat.get("kind"), feat.get("sbpp") == 24, feat.get("cbpp") == 24, feat.get("sbe"), feat.get("ovf16"),
                feat.get("strategy"))
